@@ -509,13 +509,18 @@ def fam_torn(rng, tier, i, no_marker=True):
     """cut the data file at a byte length, put the index into some crash state, open (C05 C03 C12 C15)"""
     p = rng.choice([0, 1, 2, 3, 4, 5, 8])
     n = rng.choice([1, 2, 3, 4, 6])
-    lines = mk_lines(rng, p, n, shape=rng.choice(["mixed", "sparse", "edge", "jitter"]), no_marker=no_marker)
+    multi = rng.random() < 0.25      # several whole sections lost while the index still lists them; the lost lines are appended again
+    if multi:
+        n = rng.choice([3, 4, 6])
+    lines = mk_lines(rng, p, n, shape="sparse" if multi else rng.choice(["mixed", "sparse", "edge", "jitter"]), no_marker=no_marker)
     region = len(encode(p, lines))
     s = [new_line("t", p)] + push_lines(lines) + ["close"]
     cycles = 1 if tier == "quick" else rng.choice([1, 2, 3])
     for c in range(cycles):
         r0 = rng.random()
-        if r0 < 0.6:
+        if multi and c == 0:
+            cut_back = min(region, rng.randrange(2, max(3, len(lines))) * (K(p) + 1) * (p + 2) + rng.randrange(0, (K(p) + 1) * (p + 2)))
+        elif r0 < 0.6:
             cut_back = rng.randrange(0, min(region, (K(p) + 3) * (p + 2)) + 1)
         elif r0 < 0.8:
             cut_back = min(region, rng.randrange(2, 4) * (K(p) + 1) * (p + 2) + rng.randrange(0, 2 * (p + 2)))   # two or three sparse sections
@@ -524,7 +529,7 @@ def fam_torn(rng, tier, i, no_marker=True):
         # fs_patch cannot truncate; use the absolute length through a size probe: the generator does not
         # know the header length, so cuts are expressed relative to the end with fs_cut
         s.append("fs_cut data:t %d" % cut_back)
-        st = rng.random()
+        st = rng.random() * (0.5 if multi and c == 0 else 1.0)
         if st < 0.35:
             pass                                   # index intact (ahead of the data, possibly by several entries)
         elif st < 0.5:
@@ -537,7 +542,17 @@ def fam_torn(rng, tier, i, no_marker=True):
             s.append("fs_write part:t 00000a0a")
         else:
             s += ["fs_cut index:t %d" % (16 * rng.randrange(0, 3)), "fs_write part:t 00000a0aaabb"]
-        s += [open_line("t"), "read_all u u", "len", "range", "last_line"]
+        s.append(open_line("t"))
+        repush = c == 0 and (multi or rng.random() < 0.5)
+        first = repush and (multi or rng.random() < 0.5)
+        if first:
+            # append again what the crash may have taken, right after the open (before any accessor could trip over a wrong
+            # index): the lines that survived are refused (not newer than the last one), the lost ones are accepted -
+            # whatever the index file claimed before the repair (C03 across tail repairs)
+            s += push_lines(lines)
+        s += ["read_all u u", "len", "range", "last_line"]
+        if repush and not first:
+            s += push_lines(lines) + ["range", "len"]
         t_new = (lines[-1][0] if lines else 0) + rng.choice([1, 65534, 65535, 10**6]) + c * 10**7
         if t_new < U64:
             s += ["push %d %s" % (t_new, hexb(payload(rng, p))), "read_all u u"]
@@ -652,6 +667,63 @@ def fam_caches(rng, tier, i, reopen=False, faults=False):
     s += ["close", "dump"]
     fam = "caches_faults" if faults else ("caches_reopen" if reopen else "caches")
     return {"family": fam, "lines": s, "tags": {"p%d" % p, "caches"} | ({"bigts"} if big else set())}
+
+_CACHE_HDR_PARTS = None
+def cache_header_len(name, B):
+    """length of the outer header of a cache's data file (4 + text), from the texts tools/translate.py reads in the source"""
+    global _CACHE_HDR_PARTS
+    if _CACHE_HDR_PARTS is None:
+        import translate
+        _CACHE_HDR_PARTS = [bytes(x) for x in translate.extract()["cache_header_parts"]]
+    a, b, c = _CACHE_HDR_PARTS
+    return 4 + len(a + name.encode() + b + (b"Config { max_gap: None, bucket_size: %d }" % B) + c)
+
+def fam_caches_rebuild(rng, tier, i):
+    """cache faults from which the library recovers exactly (C08 C09): a level whose files are missing on open while the
+    source holds fewer / more lines than a bucket (create over pre-existing data primes the open bucket), or a level torn
+    back to nothing (inside the first full timestamp or first line that follow its header) at a line count that is a
+    multiple of the bucket size (the repair resamples the whole source); then appends that complete further buckets, a
+    reopen at an aligned count, and a dump. Series starting at timestamp 0 included."""
+    p = rng.choice([0, 1, 2, 3, 4, 6])
+    L = p + 2
+    B = rng.choice([2, 3, 4, 5])
+    kind = rng.choice(["missing_short", "missing_long", "emptied", "emptied"])
+    if kind == "missing_short":
+        n = rng.randrange(1, B)
+    elif kind == "missing_long":
+        n = rng.randrange(B, 3 * B + 3)
+    else:
+        n = B * rng.randrange(1, 5)
+    other = rng.random() < 0.3
+    if other:
+        # a second, coarser level that stays intact: keep it aligned at the open (else the open is in the D10 class)
+        n = 2 * B * rng.randrange(1, 3)
+    top = 2 * B if other else B
+    extra = (top - n % top) % top + top * rng.randrange(0, 3)
+    if extra == 0:
+        extra = top
+    for _ in range(50):
+        lines = mk_lines(rng, p, n + extra, shape=rng.choice(["dense", "jitter", "mixed", "sparse"]),
+                         base=rng.choice([0, 0, 1, 7, 2**33, None]), no_marker=True)
+        if len(lines) == n + extra:
+            break
+    Bs = (B, 2 * B) if other else (B,)
+    s = [new_line("c", p, b"", Bs)] + push_lines(lines[:n]) + ["close"]
+    if kind.startswith("missing"):
+        s += ["fs_rm cdata:c:%d" % B, "fs_rm cindex:c:%d" % B]
+    else:
+        s.append("fs_trunc cdata:c:%d %d" % (B, cache_header_len("c", B) + rng.randrange(0, (K(p) + 1) * L)))
+        r = rng.random()
+        if r < 0.3:
+            s.append("fs_rm cindex:c:%d" % B)
+        elif r < 0.5:
+            s.append("fs_cut cindex:c:%d %d" % (B, rng.randrange(1, 20)))
+    s.append(open_line("c", "any", "any", Bs))
+    s += push_lines(lines[n:]) + ["read_all u u", "read_n %d u u" % rng.choice([1, 2, 3]), "close"]
+    if (n + extra) % (2 * B if other else B) == 0:
+        s += [open_line("c", "any", "any", Bs), "len", "close"]
+    s.append("dump")
+    return {"family": "caches_rebuild", "lines": s, "tags": {"p%d" % p, "caches"}}
 
 def fam_caches_reopen(rng, tier, i):
     return fam_caches(rng, tier, i, reopen=True)
@@ -855,7 +927,7 @@ def fam_totality(rng, tier, i):
 FAMILIES = {f.__name__[4:]: f for f in [
     fam_roundtrip, fam_boundary, fam_boundary2, fam_lastmeta, fam_interleave, fam_boundary_reader, fam_bigsection, fam_sparse_boundary, fam_ranges, fam_refuse, fam_reopen, fam_reopen_marker,
     fam_bigline, fam_torn, fam_index_states, fam_format, fam_assets, fam_caches, fam_caches_reopen,
-    fam_caches_faults, fam_cache_sections, fam_resample, fam_contract, fam_corrupt, fam_totality]}
+    fam_caches_faults, fam_caches_rebuild, fam_cache_sections, fam_resample, fam_contract, fam_corrupt, fam_totality]}
 
 def generate(plan, tier, seed):
     """plan: list of (family, count). Returns the histories."""
